@@ -34,6 +34,8 @@ func c03Alphabet() []uint32 {
 		prog.Addw(14, 15, 15), prog.Add(16, 15, 0),
 		prog.AmoaddW(17, 5, 1), prog.LrW(18, 5), prog.ScW(19, 5, 2),
 		prog.Beq(1, 2, 8), prog.Jal(0, -8), prog.Jalr(0, 20, 0), prog.Jal(21, 4), prog.Csrrw(22, 1, 0xc00),
+		// one register used as address (64-bit read) AND as data (32-bit read) of one instruction
+		prog.ScW(19, 5, 5), prog.R(1<<2, 5, 5, 2, 0, 0x2f), /* amoswap.w x0,x5,(x5) */
 	}
 }
 
@@ -44,6 +46,8 @@ var c03Inits = []emu.Init{
 	{X: map[int]uint64{5: c03Data, 6: c03Base, 20: c03Base + 6, 1: 0xffffffff80000001, 15: 0x1234567890abcdef}, Seed: 2},
 	// preloaded knowledge, jump to a gap after the code
 	{X: map[int]uint64{5: c03Data, 6: c03Base, 20: 0x4000, 15: 0xfedcba9876543210}, Seed: 3, Small: true, PreloadRegs: []int{1, 5, 15}, PreloadMem: [][2]uint64{{c03Data + 2, 4}}},
+	// data area above 2^32 (addresses that do not survive a 32-bit truncation), base register pre-loaded
+	{X: map[int]uint64{5: 0x100000000 + c03Data, 6: c03Base, 20: c03Base + 4}, Seed: 4, Small: true, PreloadRegs: []int{5}},
 }
 
 func c03Layout(words []uint32) []prog.Seg {
@@ -73,7 +77,14 @@ func c03Run(c c03Case, monitor func(m *emu.Machine) *eng.Fail) (f *eng.Fail, ste
 	for s := 0; s < c.Steps; s++ {
 		d, done := m.Step()
 		if d != nil {
-			return &eng.Fail{Sig: "emulation " + d.Class, What: fmt.Sprintf("step %d: %s", s, d.What), Case: c}, m.Steps, ""
+			if monitor != nil {
+				// let the monitor see the requests of the failing step as well
+				if f := monitor(m); f != nil {
+					f.Case = c
+					return f, m.Steps, ""
+				}
+			}
+			return &eng.Fail{Sig: "emulation " + d.Class, What: fmt.Sprintf("step %d: %s", s, d.What), Case: c, Observed: d}, m.Steps, ""
 		}
 		if monitor != nil {
 			if f := monitor(m); f != nil {
@@ -120,7 +131,7 @@ func c03Enumerate(r *eng.Run, f func(c c03Case)) {
 func init() {
 	checks["C03"] = eng.Check{
 		Hist: true,
-		Rule: "every RV64IMA program of <=3 (thorough 4) instructions over a 26-word alphabet built to collide (three writers of x1, negative immediates, mul/div, sd/sw/sh/sb to overlapping offsets of one base, loads inside one store / across two stores / across a store and never-written memory / inside the image / across the image start, addw (32-bit register read) followed by a 64-bit reader, amoadd.w, lr.w, sc.w, beq forward, jal backward, jalr to a register, pseudo-jump jal +4, csrrw) followed by 4 nops, through the real pipeline (elf block store -> parser -> deps.NewCode -> emulator with Overlay(Bytes(image), Sparse)); run for <=8 steps from 3 initial states (small values; full 64-bit values with an indirect jump to a mid-instruction address; pre-loaded registers/memory with a jump outside the code) supplied by the state provider. After every step pc, every register the emulator knows, every written or supplied memory byte and the step report (register/memory reads and writes with values, as sets) are compared with the reference interpreter; Step must fail exactly when pc is not an instruction start. states = program x initial state; transitions = steps executed. Non-trivial = run of >=3 steps.",
+		Rule: "every RV64IMA program of <=3 (thorough 4) instructions over a 28-word alphabet built to collide (three writers of x1, negative immediates, mul/div, sd/sw/sh/sb to overlapping offsets of one base, loads inside one store / across two stores / across a store and never-written memory / inside the image / across the image start, addw (32-bit register read) followed by a 64-bit reader, amoadd.w, lr.w, sc.w, sc.w/amoswap.w using ONE register as address and data, beq forward, jal backward, jalr to a register, pseudo-jump jal +4, csrrw) followed by 4 nops, through the real pipeline (elf block store -> parser -> deps.NewCode -> emulator with Overlay(Bytes(image), Sparse)); run for <=8 steps from 4 initial states (small values; full 64-bit values with an indirect jump to a mid-instruction address; pre-loaded registers/memory with a jump outside the code; data area above 2^32) supplied by the state provider. After every step pc, every register the emulator knows, every written or supplied memory byte and the step report (register/memory reads and writes with values, as sets) are compared with the reference interpreter; Step must fail exactly when pc is not an instruction start. states = program x initial state; transitions = steps executed. Non-trivial = run of >=3 steps.",
 		Assumptions: []string{
 			"programs storing into their own image are skipped (property excludes self-modification)",
 			"the step report is compared as sets; a register read at several widths may be reported at any of them",
